@@ -32,6 +32,8 @@ pub mod support;
 mod hw;
 #[path = "c15_value.rs"]
 mod value;
+#[path = "c15_probe.rs"]
+pub mod probe;
 
 use crate::driver::Driver;
 use crate::report::{trunc, Oracle, Report, Stream};
@@ -1152,7 +1154,8 @@ fn oracle_variant_sweep(seed: u64, rounds: u64) -> Oracle {
             or.fail(&format!("sweep:unswept-enum:{}", en), &format!("the hand-written readers dispatch on tags into enum {} — this sweep has no inputs for it", en), json!({"oracle": "c15.variant-sweep", "enum": en}));
             continue;
         }
-        let mut tags: Vec<String> = vec![];
+        // the tags this harness knows (a rewrite may hide tags from the syntactic scan), then what the source shows
+        let mut tags: Vec<String> = probe::KNOWN_TAGS.iter().find(|(e, _)| *e == en).map(|(_, ts)| ts.iter().map(|t| t.to_string()).collect()).unwrap_or_default();
         for a in d["reader"].as_array().unwrap() {
             for t in a["tags"].as_array().unwrap() {
                 let t = t.as_str().unwrap().to_string();
@@ -1165,6 +1168,11 @@ fn oracle_variant_sweep(seed: u64, rounds: u64) -> Oracle {
             for round in 0..rounds {
                 let mut rng = Rng::derive(seed, &format!("c15.variant-sweep/{}/{}", en, tag), round);
                 let Some(cases) = sweep_inputs(en, tag, &mut rng) else {
+                    // a string the syntactic scan found near the reader: is it a tag the compiled reader dispatches on?
+                    if probe::tag_is_real(en, tag) == Some(false) {
+                        or.count(&format!("syntactic-tag-not-a-tag-of-the-compiled-reader={}:{}", en, tag));
+                        break;
+                    }
                     or.fail(&format!("sweep:unswept-variant:{}:{}", en, tag), &format!("reader tag {:?} of {} is not covered by the sweep", tag, en), json!({"oracle": "c15.variant-sweep", "enum": en, "tag": tag}));
                     break;
                 };
